@@ -22,6 +22,7 @@ import random
 import re
 from urllib.parse import urlsplit as std_urlsplit
 
+from bcheck import history
 from bcheck.common import Collector, args, run_sharded, call
 
 from ural.facebook import is_facebook_url
@@ -596,6 +597,8 @@ def feed(col, viols):
 def main():
     a = args("C18")
     col = Collector("C18", a.tier, a.seed)
+    if a.replay and history.replayed(a, col, "C18"):
+        return
     if a.replay:
         rp = json.load(open(a.replay))
         ctx = Ctx(a.tier, a.seed)
@@ -641,6 +644,7 @@ def main():
     col.notes.append({"distinct_violation_signatures": len(viols)})
     col.notes.append({"exceptions_seen_not_flagged": exc})
     col.notes.append({"non_bool_truthy_or_falsy_results_compared_by_truthiness": nonbool})
+    history.run(col, "C18", a.tier == "quick")
     col.dump(a.out)
 
 
